@@ -81,6 +81,7 @@ fn main() {
             let mut acc = acc::Acc {
                 verbose: a.contains_key("verbose"),
                 thorough: tier == "thorough",
+                violation_log: Some(format!("{out}.violations.jsonl")),
                 ..Default::default()
             };
             let mut extra = json!(null);
